@@ -193,6 +193,7 @@ ASPECTS = {
     "C02": "an assignment that raises leaves no effect behind (store, relink, post_setter, update_deps, dispatch, flush)",
     "C03": "after the store: update_deps, every value watcher in precedence order with event(old, new), flush iff not batching",
     "C08": "relink(ref) iff a reference was assigned; relink(None) iff a plain value overrides an existing link (not for the sync's own write)",
+    "C10": "a plain value that overrides an existing link ends it -- relink(None) is what cancels the pending asynchronous evaluation -- and a new reference replaces the old one (not for the sync's own write)",
     "C12": "class route writes the class default only, instance routes the instance store only",
     "C14": "readonly always raises TypeError; constant on an initialized instance raises unless the identical object is assigned",
 }
@@ -219,6 +220,8 @@ def classify(c, got, want):
     wrel = [t for t in wtrace if t.startswith("relink")]
     if grel != wrel:
         out.add("C08")
+        if wrel and not wexc:
+            out.add("C10")
         if gexc:
             out.add("C02")
     gd = [t for t in gtrace if t.startswith(("dispatch", "flush", "update_deps", "post_setter"))]
